@@ -141,8 +141,21 @@ func c18Check(c *Ctx, base string) {
 	cell := tabular.NewCell(item)
 	seq := append(append([]string{}, variants...), "", base+"\n", "", "x")
 	for k, s := range seq {
+		// a by-value copy taken now is a cell of its own: when only the original is updated after the mutation, the
+		// copy goes on reporting the text it read last, with lines, height and width that belong to that text
+		cp := cell
+		before := cp.String()
 		item.S = s
 		cell.Update()
+		if txt := cp.String(); txt != before {
+			c.Rec.Violate("Cell-copy:text-follows-the-original's-Update", fmt.Sprintf("a by-value copy of a cell read %q; after the item was mutated to %q and only the ORIGINAL was updated, the copy reads %q", before, s, txt), map[string]interface{}{"mutation_sequence": qs(seq[:k+1])})
+			return
+		}
+		if got, want := cp.Lines(), length.Lines(before); strings.Join(got, "\n") != strings.Join(want, "\n") || len(got) != len(want) || cp.Height() != len(got) || cp.TerminalCellWidth() != length.LongestLineCells(before) {
+			c.Rec.Violate("Cell-copy:metrics-follow-the-original's-Update", fmt.Sprintf("a by-value copy of a cell still reads %q after only the original was updated to %q, but the copy's Lines()=%q, Height()=%d, TerminalCellWidth()=%d no longer belong to that text", before, s, got, cp.Height(), cp.TerminalCellWidth()), map[string]interface{}{"mutation_sequence": qs(seq[:k+1])})
+			return
+		}
+		c.Rec.Count("cell_copies_checked_after_the_original_was_updated", 1)
 		c.Rec.Count("cells_checked_after_mutation_and_Update", 1)
 		text := cell.String()
 		d := map[string]interface{}{"mutation_sequence": qs(seq[:k+1])}
